@@ -566,8 +566,12 @@ def _render_variable(variable, prefix=""):
 
 def _render_enum_value(enum_type, ir):
     cpp_enum_type = _get_fully_qualified_name(enum_type.name.canonical_name, ir)
+    # The value has to go through _render_integer: a bare 18446744073709551615
+    # or -9223372036854775808 is not a valid C++ literal.
     return "{}(static_cast</**/{}>({}))".format(
-        _maybe_type(cpp_enum_type), cpp_enum_type, enum_type.value
+        _maybe_type(cpp_enum_type),
+        cpp_enum_type,
+        _render_integer(int(enum_type.value)),
     )
 
 
@@ -1405,7 +1409,9 @@ def _render_case_label(expression, ir):
         # Need fully qualified enum type name
         enum_type = expression.type.enumeration
         cpp_enum_type = _get_fully_qualified_name(enum_type.name.canonical_name, ir)
-        return "static_cast</**/{}>({})".format(cpp_enum_type, enum_type.value)
+        return "static_cast</**/{}>({})".format(
+            cpp_enum_type, _render_integer(int(enum_type.value))
+        )
     else:
         assert False, "Unsupported switch case type"
 
